@@ -258,6 +258,10 @@ func CheckConc(e *Env) (int, error) {
 				}
 			}
 			switch {
+			case j.ExitCode == 3 && len(j.Results) > 0:
+				// the process stopped after a run that ended in a deadlock
+				// (its tasks still hold their locks); the remaining indices
+				// of the job were not executed
 			case j.ExitCode == 0:
 				if len(j.Results) != j.N {
 					return 2, harnessErr("conc job %s from=%d produced %d of %d results:\n%s", j.Variant, j.From, len(j.Results), j.N, j.Stderr)
